@@ -514,3 +514,79 @@ mod tests {
         fast_pairing(&g1, &g2);
     }
 }
+
+/// Verification hooks: wrappers naming the module-private pairing internals.
+#[cfg(john_yu_sm9_core_verif)]
+#[allow(missing_docs)]
+pub mod verif_hooks {
+    use super::*;
+    pub const LOOP_COUNT: [u8; 65] = SM9_LOOP_COUNT;
+    pub const S: u128 = SM9_S;
+    pub const LOOP_N: u128 = SM9_LOOP_N;
+    pub const A2: u128 = SM9_A2;
+    pub const A3: u128 = SM9_A3;
+    pub const NINE: u128 = SM9_NINE;
+    pub fn pi1() -> U256 {
+        *SM9_PI1
+    }
+    pub fn pi2() -> U256 {
+        *SM9_PI2
+    }
+    pub fn fq12_pow_u128(x: &Fq12, e: u128) -> Fq12 {
+        x.pow(e)
+    }
+    pub fn final_exponentiation_first_chunk(x: &Fq12) -> Option<Fq12> {
+        x.final_exponentiation_first_chunk()
+    }
+    pub fn final_exponentiation_last_chunk(x: &Fq12) -> Fq12 {
+        x.final_exponentiation_last_chunk()
+    }
+    pub fn final_exponentiation(x: &Fq12) -> Option<Fq12> {
+        x.final_exponentiation()
+    }
+    pub fn final_exp_last_chunk(x: &Fq12) -> Fq12 {
+        x.final_exp_last_chunk()
+    }
+    pub fn final_exp(x: &Fq12) -> Option<Fq12> {
+        x.final_exp()
+    }
+    pub fn point_pi1(g: &G2) -> G2 {
+        g.point_pi1()
+    }
+    pub fn point_pi2(g: &G2) -> G2 {
+        g.point_pi2()
+    }
+    pub fn eval_g_tangent(t: &G2, p: &G1) -> (Fq12, Fq12) {
+        t.eval_g_tangent(p)
+    }
+    pub fn eval_g_line(t: &G2, s: &G2, p: &G1) -> (Fq12, Fq12) {
+        t.eval_g_line(s, p)
+    }
+    pub fn miller_loop(q: &G2, p: &G1) -> Fq12 {
+        q.miller_loop(p)
+    }
+    pub fn q_power_frobenius(g: &G2, f: &Fq2) -> Option<G2> {
+        g.q_power_frobenius(f)
+    }
+    pub fn g_line(t: &mut G2, s: &G2) -> (Fq2, Fq2, Fq2) {
+        t.g_line(s)
+    }
+    pub fn g_tangent(t: &mut G2) -> (Fq2, Fq2, Fq2) {
+        t.g_tangent()
+    }
+    pub fn prepared_coeffs(p: &G2Prepared) -> &Vec<(Fq2, Fq2, Fq2)> {
+        &p.coeffs
+    }
+    pub fn prepared_get_fq12(p: &G2Prepared, c: &(Fq2, Fq2, Fq2), t1: &Fq2, x: &Fq) -> Fq12 {
+        p.get_fq12(c, t1, x)
+    }
+    pub fn prepared_miller_loop(p: &G2Prepared, g1: &G1) -> Fq12 {
+        p.miller_loop(g1)
+    }
+    pub fn raw_pairing(p: &G1, q: &G2) -> Fq12 {
+        pairing(p, q)
+    }
+    pub fn raw_fast_pairing(p: &G1, q: &G2) -> Fq12 {
+        fast_pairing(p, q)
+    }
+}
